@@ -1558,6 +1558,13 @@ impl ParamsOxide {
         self.greedy_parsing = self.flags & TDEFL_GREEDY_PARSING_FLAG != 0;
     }
 
+    /// The furthest back a match may reach: the window size declared in the zlib header
+    /// (`header_from_level` encodes `max(window_bits, 8) - 8`), at most the dictionary size.
+    #[inline]
+    fn max_match_dist(&self) -> usize {
+        cmp::min(LZ_DICT_SIZE, 1usize << cmp::max(cmp::min(self.window_bits_max, 15), 8))
+    }
+
     /// Reset state, saving settings.
     fn reset(&mut self) {
         self.block_index = 0;
@@ -2072,7 +2079,7 @@ fn compress_normal(d: &mut CompressorOxide, callback: &mut CallbackOxide) -> boo
             // Try to find a match for the bytes at the current position.
             let dist_len = d.dict.find_match(
                 lookahead_pos,
-                d.dict.size,
+                cmp::min(d.dict.size, d.params.max_match_dist()),
                 lookahead_size as u32,
                 cur_match_dist,
                 cur_match_len,
@@ -2215,7 +2222,7 @@ fn compress_fast(d: &mut CompressorOxide, callback: &mut CallbackOxide) -> bool 
             d.dict.b.hash[hash as usize] = lookahead_pos as u16;
 
             let mut cur_match_dist = (lookahead_pos - probe_pos) as u16;
-            if cur_match_dist as usize <= d.dict.size {
+            if cur_match_dist as usize <= cmp::min(d.dict.size, d.params.max_match_dist()) {
                 probe_pos &= LZ_DICT_SIZE_MASK;
 
                 let trigram = d.dict.read_unaligned_u32(probe_pos) & 0xFF_FFFF;
